@@ -813,7 +813,11 @@ func nthTransformer(str string) (func(Delimiter) func([]Token, int32) string, er
 		expr := str[index[0]+1 : index[1]-1]
 		if expr == "n" {
 			parts = append(parts, NthParts{index: true})
-		} else if nth, err := splitNth(expr); err == nil {
+		} else {
+			nth, err := splitNth(expr)
+			if err != nil {
+				return nil, err
+			}
 			parts = append(parts, NthParts{nth: nth})
 		}
 		idx = index[1]
